@@ -109,6 +109,8 @@ type Env struct {
 	Gov     string
 	K       frkeeper.Keeper
 	Msg     frtypes.MsgServer
+	Digests bool        // C14: record event / store digests
+	AccBase int64       // account number of the first funded user
 	Lis     []*Listener // C17 listeners (nil unless installed)
 	HookLog []HookCall
 }
@@ -237,6 +239,11 @@ func (b *Base) NewEnv(init Action) (*Env, error) {
 		}
 		if err := b.App.BankKeeper.SendCoinsFromModuleToAccount(e.Ctx, minttypes.ModuleName, e.Addr[u], coins); err != nil {
 			return nil, err
+		}
+	}
+	if len(init.Users) > 0 {
+		if acc := b.App.AccountKeeper.GetAccount(e.Ctx, e.Addr[init.Users[0]]); acc != nil {
+			e.AccBase = int64(acc.GetAccountNumber())
 		}
 	}
 	return e, nil
